@@ -152,17 +152,21 @@ func init() {
 	// maxLen+1 times: C06 C16
 	gtFamily("81-gotrans-directives", []gtItem{
 		{dir: "soyhtml", key: "directiveTruncate", cfg: &gtCfg{fuel: map[int]string{1: "maxLen + 2"}}},
+		it("soyhtml", "directiveInsertWordBreaks"),
+		it("soyhtml", "directiveChangeNewlineToBr"),
 	})
 	// soymsg: tagName, the html placeholder name, hash32 with its block loop (fuel: one iteration per 12 bytes of
-	// limit-start, stated generously); lemmas in Proofs/MsgIdSourceTie.v (C10 C11)
+	// limit-start, stated generously); lemmas in Proofs/SourceTieMsgLoops.v (C10 C11)
 	// parse/quote.go unquoteString: the error result is "err != nil", utf8.DecodeRuneInString, strconv.ParseInt and
 	// string([]rune) are parameters; every iteration consumes at least one byte (fuel len(s)+1): C01 C05 C17
 	gtFamily("83-gotrans-quote", []gtItem{
 		{dir: "parse", key: "unquoteString", cfg: &gtCfg{fuel: map[int]string{1: "len(s) + 1"}}},
+		it("parse", "quoteString"),
 	})
 	gtFamily("82-gotrans-soymsg-loops", []gtItem{
 		it("soymsg", "tagName"),
 		{dir: "soymsg", key: "genBasePlaceholderNameFromHtml", cfg: &gtCfg{abstract: []string{"toUpperUnderscore"}}},
 		{dir: "soymsg", key: "hash32", cfg: &gtCfg{fuel: map[int]string{1: "limit - start + 1"}}},
+		it("soymsg", "toUpperUnderscore"),
 	})
 }
